@@ -64,3 +64,8 @@ def run(repo, res, tier):
     from .. import effects
     effects.rule_e5(repo, res)
     decrules.rule_fmt(repo, res)
+    # a LexerError built with its arguments in another order than (message, doc, pos, lexeme) raises TypeError inside its
+    # own constructor: the loader then fails with an undocumented type exactly where it should report a bad character
+    from .. import lexrules as _lx
+    _gi = _lx.rule_i2(repo, res)
+    _lx.rule_i3(repo, res, _gi)
